@@ -90,6 +90,18 @@ SKY_SPECS = [
      'angle': [30.0, 'deg', 'Quantity'], 'meta': {'text': 'pole'},
      'visual': {}},
 ]
+# sky regions on the far side of the pool's projections (the antipodes of the
+# WCS centres): converting them has no answer - what matters is that asking
+# leaves no trace
+FAR_SPECS = [
+    {'cls': 'CircleSkyRegion', 'center': {'frame': 'icrs', 'lon': 210.0,
+                                          'lat': -10.0},
+     'radius': [20.0, 'arcsec'], 'meta': {}, 'visual': {}},
+    {'cls': 'EllipseSkyRegion', 'center': {'frame': 'galactic', 'lon': 340.0,
+                                           'lat': 43.0},
+     'width': [40.0, 'arcsec'], 'height': [20.0, 'arcsec'],
+     'angle': [10.0, 'deg', 'Quantity'], 'meta': {}, 'visual': {}},
+]
 WCS_SPECS = [
     {'proj': 'TAN', 'frame': 'icrs', 'crval': [30.0, 10.0], 'crpix': [10.0, 10.0],
      'scale': 0.0005, 'rot': 25.0, 'parity': -1},
@@ -180,6 +192,7 @@ def make_pool(variant=None):
     pool = {'pix': [S.build(vary(s, variant)) for s in PIXEL_SPECS],
             'sky': [S.build(vary(s, variant)) for s in SKY_SPECS],
             'wcs': [S.build_wcs(w) for w in WCS_SPECS],
+            'far': [S.build(s) for s in FAR_SPECS],
             'coord': [PixCoord(10.0, 10.0),
                       PixCoord(np.array([2.0, 9.5, 12.0, 30.0]),
                                np.array([3.0, 10.5, 9.0, -4.0])),
@@ -302,6 +315,14 @@ def apply(pool, op):
         if name == 'to_pixel':
             r, w = Sk[op[1] % len(Sk)], Wc[op[2] % len(Wc)]
             return [r, w], r.to_pixel(w)
+        if name == 'to_pixel_far':
+            r = pool['far'][op[1] % len(pool['far'])]
+            w = Wc[op[2] % len(Wc)]
+            try:
+                return [r, w], r.to_pixel(w)
+            except ValueError as exc:
+                # refusing is an answer too - the same one every time
+                return [r, w], ['refused', 'ValueError', str(exc)[:60]]
         if name == 'sky_contains':
             r, w = Sk[op[1] % len(Sk)], Wc[op[2] % len(Wc)]
             sc = C[1].to_sky(w)
@@ -449,6 +470,25 @@ def scribble(op, result):
 
     walk(result)
     return n
+
+
+def wcs_probe(w):
+    """What a WCS object answers: near its centre and on the far side of its
+    projection (the header does not show every switch of the object)."""
+    lon0, lat0 = (float(v) for v in w.wcs.crval)
+    pts = [(lon0 + 0.003, lat0 - 0.002), ((lon0 + 180.0) % 360.0, -lat0),
+           ((lon0 + 120.0) % 360.0, -lat0)]
+    out = []
+    with warnings.catch_warnings():
+        warnings.simplefilter('ignore')
+        for lon, lat in pts:
+            try:
+                xy = w.wcs_world2pix([[lon, lat]], 0)[0]
+                out.append([repr(float(v)) for v in xy])
+            except Exception as exc:   # noqa: BLE001
+                out.append(type(exc).__name__)
+        out.append([repr(float(v)) for v in w.wcs_pix2world([[3.0, 4.0]], 0)[0]])
+    return out
 
 
 def module_tables():
